@@ -207,7 +207,7 @@ def main():
   # ---------------- str(q) direction ----------------
   probes = [tf.constant(rng.normal(0, 1, size=(4, 6)).astype(np.float32)),
             tf.constant(np.linspace(-3, 3, 24, dtype=np.float32).reshape(4, 6))]
-  n_str = n_same = 0
+  n_str = n_same = n_np = 0
   for cls_name in c09.LATTICE:
     cls = getattr(Q, cls_name)
     for kw in c09.instances(cls_name, rep.tier, rng):
@@ -218,6 +218,22 @@ def main():
         q = cls(**c09.materialize(kw))
       except Exception:  # pylint: disable=broad-except
         continue
+      # numeric options computed with numpy (np.max(...), np.float32(...)) are scalars of numpy types: the text must still be the plain literal
+      np_kw = {k: (np.float32(v) if isinstance(v, float) else v) for k, v in c09.materialize(kw).items()}
+      if any(isinstance(v, np.float32) for k, v in np_kw.items() if k in nondef):
+        try:
+          qn = cls(**np_kw)
+          tn = str(qn)
+          q2n = Q.get_quantizer(tn)
+          n_np += 1
+          if cls_name != "bernoulli" and any(env.f2b(q(p_).numpy()) != env.f2b(q2n(p_).numpy()) for p_ in probes) and not (
+              [k for k in nondef if k in STR_OMITS.get(cls_name, [])] or [k for k in nondef if k in SLOT_CLASSES.get(cls_name, [])]):
+            rep.violation(f"str-roundtrip-numpy-scalar-{desc}", f"{desc} built with numpy scalar option values prints '{tn}', which re-parses to a quantizer computing a "
+                          f"different function (the same options as Python floats print '{str(q)}')", {"class": cls_name, "kwargs": str(kw), "text": tn})
+        except Exception as e:  # pylint: disable=broad-except
+          if not ([k for k in nondef if k in STR_OMITS.get(cls_name, [])] or [k for k in nondef if k in SLOT_CLASSES.get(cls_name, [])]):
+            rep.violation(f"str-numpy-scalar-raises-{desc}", f"{desc} built with numpy scalar option values: str / get_quantizer raised {type(e).__name__}: {str(e)[:160]}",
+                          {"class": cls_name, "kwargs": str(kw)})
       n_str += 1
       rep.count((cls_name, tuple(sorted((k, str(v)) for k, v in kw.items()))))
       explained = [f"C10-str-omits-{cls_name}-{k}" for k in nondef if k in STR_OMITS.get(cls_name, [])]
@@ -257,7 +273,7 @@ def main():
       else:
         rep.violation(f"str-roundtrip-{desc}", f"{desc} prints '{text}', which re-parses to a quantizer computing a different function",
                       {"class": cls_name, "kwargs": str(kw), "text": text})
-  rep.note(str_direction=dict(instances=n_str, same_function=n_same))
+  rep.note(str_direction=dict(instances=n_str, same_function=n_same, instances_with_numpy_scalar_options=n_np))
   rep.assumptions += ["pyparsing's tokenisation is modelled by Parse/SafeEval.v tokenize (split at commas, key [^=,)\\s]+, value [^,)]*) and compared on every generated string",
                       "float literals are compared as tokens in Coq and by Python float() equality in the harness",
                       "the generated grammar has no blank before a comma: a keyword value followed by blanks keeps them (e.g. 'True ' is not recognised as a bool) -- outside the claimed literal grammar",
